@@ -205,6 +205,7 @@ func bigLit(s string) Term {
 // ---------------------------------------------------------------------------
 
 type Obligation struct {
+	CountsFor []string
 	Name      string   // stable name: pkg.Func/kind/label
 	Kind      string   // post, pre, safety, inv-init, inv-preserve, frame, lemma, cover, ...
 	Func      string   // function under contract
@@ -323,6 +324,9 @@ type runConfig struct {
 	workdir  string
 	seed     int
 	keep     bool
+	// late lists solvers of the race that start only after lateAfterMS
+	late        []string
+	lateAfterMS int
 }
 
 func (o *Obligation) script(pre string, seed int) string {
@@ -424,7 +428,23 @@ func (o *Obligation) discharge(rc runConfig, idx int) {
 			ch <- res{sp.name, "error", err.Error()}
 			continue
 		}
+		late := false
+		for _, l := range rc.late {
+			if l == sp.name {
+				late = true
+			}
+		}
 		go func() {
+			if late {
+				// a back end kept in reserve: started only when the others
+				// have not answered after a short while
+				select {
+				case <-time.After(time.Duration(rc.lateAfterMS) * time.Millisecond):
+				case <-ctx.Done():
+					ch <- res{sp.name, "error", "not started"}
+					return
+				}
+			}
 			v, out := runOne(ctx, sp, file, rc.timeoutS)
 			ch <- res{sp.name, v, out}
 		}()
